@@ -2,7 +2,12 @@
 
 package fp
 
-import "github.com/csgura/fp/internal/atomic"
+import (
+	"fmt"
+	"sort"
+
+	"github.com/csgura/fp/internal/atomic"
+)
 
 // This file exists only under the verif build tag. It exposes the seams the
 // deterministic simulator in /verif needs: the yield hook of internal/atomic
@@ -47,3 +52,25 @@ func verifYield(op string) { VerifYield(op) }
 
 // VerifSetMinimal exposes the private base of a Set to the simulator's structural checks.
 func VerifSetMinimal[V any](s Set[V]) SetMinimal[V] { return s.set }
+
+var verifRangeHook func(keys []any) []any
+
+// VerifSetRangeHook installs f as the owner of the iteration order of UnsafeGoMap.Iterator: f receives the keys in a
+// canonical order (sorted by their printed form) and returns them in the order the range has to visit them;
+// returning nil means "range the map as usual". nil removes the hook.
+func VerifSetRangeHook(f func(keys []any) []any) {
+	verifRangeHook = f
+}
+
+func verifRangeOrder[K, V any](m UnsafeGoMap[K, V]) []any {
+	h := verifRangeHook
+	if h == nil {
+		return nil
+	}
+	keys := make([]any, 0, len(m))
+	for k := range m {
+		keys = append(keys, k)
+	}
+	sort.Slice(keys, func(i, j int) bool { return fmt.Sprintf("%T:%v", keys[i], keys[i]) < fmt.Sprintf("%T:%v", keys[j], keys[j]) })
+	return h(keys)
+}
